@@ -107,6 +107,194 @@ def enum_patterns(maxlen):
         yield nxt
 
 
+
+# ---------------------------------------------------------------------------------- call sites
+# The two users of heartbeater: MrpProtocol.enable_heartbeat (failure closes the connection)
+# and AP2Session.start_keep_alive (failure/finish reported to the device listener).  Here the
+# environment is the DEVICE: it answers a keep-alive ('O') or stays silent / errors ('F'); other
+# traffic on the same protocol object (answered and abandoned requests) is interleaved.  The
+# observable trace must be the model's trace for the same O/F history.
+
+async def drive_mrp(history, abandon_before):
+    """history: string over O/F (device answers / is silent for the i-th keep-alive);
+    abandon_before: index of the keep-alive before which a user request is abandoned (or None)."""
+    from pyatv.protocols.mrp import messages, protobuf
+    from pyatv.protocols.mrp.connection import AbstractMrpConnection
+    from pyatv.protocols.mrp.protocol import MrpProtocol, ProtocolState
+    from pyatv.auth.hap_srp import SRPAuthHandler
+    from pyatv.core import MutableService
+    from pyatv.const import Protocol
+    from pyatv.settings import InfoSettings
+
+    class Conn(AbstractMrpConnection):
+        def __init__(self):
+            super().__init__()
+            self.sent = []
+            self.closed = 0
+
+        async def connect(self):
+            pass
+
+        def enable_encryption(self, output_key, input_key):
+            pass
+
+        @property
+        def connected(self):
+            return not self.closed
+
+        def close(self):
+            self.closed += 1
+
+        def send(self, message):
+            self.sent.append(message)
+
+    conn = Conn()
+    proto = MrpProtocol(conn, SRPAuthHandler(), MutableService("id", Protocol.MRP, 0, {}), InfoSettings())
+    proto._state = ProtocolState.READY
+    proto.enable_heartbeat()
+    trace = []
+    seen = 0
+    for i, ev in enumerate(history + "."):
+        if abandon_before == i:
+            # a caller gives up on a request the device never answers
+            try:
+                await asyncio.wait_for(proto.send_and_receive(messages.create(protobuf.SEND_COMMAND_MESSAGE), timeout=50), 0.5)
+            except asyncio.TimeoutError:
+                pass
+        if ev == ".":
+            break
+        # wait (virtual time) for the next keep-alive to be sent, or for the connection to be closed
+        for _ in range(2000):
+            hb = [m for m in conn.sent[seen:] if m.type == protobuf.GENERIC_MESSAGE]
+            if hb or conn.closed:
+                break
+            await asyncio.sleep(0.1)
+        if conn.closed or not hb:
+            break
+        idx = seen + [j for j, m in enumerate(conn.sent[seen:]) if m.type == protobuf.GENERIC_MESSAGE][0]
+        msg = conn.sent[idx]
+        seen = idx + 1
+        trace.append("Send")
+        if ev == "O":
+            resp = messages.create(protobuf.GENERIC_MESSAGE)
+            resp.identifier = msg.identifier
+            proto.message_received(resp, None)
+            await asyncio.sleep(0)
+        else:
+            await asyncio.sleep(5.5)  # send_and_receive times out after 5 s
+    # let a pending failure be reported: nothing may happen for a long while
+    sent_before = len([m for m in conn.sent[seen:] if m.type == protobuf.GENERIC_MESSAGE])
+    closed = conn.closed
+    if closed:
+        trace.append("Failure")
+        await asyncio.sleep(200)
+        extra = len([m for m in conn.sent[seen:] if m.type == protobuf.GENERIC_MESSAGE]) - sent_before
+        if extra or conn.closed != closed:
+            trace.append("ActivityAfterFailure")
+    proto.stop()
+    return trace
+
+
+async def drive_ap2(history):
+    from pyatv.protocols.airplay.ap2_session import AP2Session
+    from pyatv.auth.hap_pairing import NO_CREDENTIALS
+    from pyatv.settings import InfoSettings
+    from pyatv.support.state_producer import StateProducer
+
+    trace = []
+    gate = {}
+    entered = asyncio.Event()
+
+    class Rtsp:
+        async def feedback(self, allow_error=False):
+            fut = asyncio.get_event_loop().create_future()
+            gate["fut"] = fut
+            entered.set()
+            try:
+                await fut
+            finally:
+                trace.append("Send")
+
+    class L:
+        def connection_lost(self, exc):
+            trace.append("Failure")
+
+        def connection_closed(self):
+            trace.append("Finish")
+
+    listener = L()
+    sp = StateProducer()
+    sp.listener = listener
+    session = AP2Session("127.0.0.1", 7000, NO_CREDENTIALS, InfoSettings())
+    session.rtsp = Rtsp()
+    session.start_keep_alive(sp)
+    task = session._feedback_task
+    await asyncio.sleep(0)
+    for ev in history:
+        if task.done():
+            break
+        if ev == "S":
+            task.cancel()
+        else:
+            w = asyncio.ensure_future(entered.wait())
+            await asyncio.wait([w, task], return_when=asyncio.FIRST_COMPLETED)
+            if not w.done():
+                w.cancel()
+                break
+            if ev == "O":
+                gate["fut"].set_result(None)
+            elif ev == "F":
+                gate["fut"].set_exception(RuntimeError("no reply"))
+            else:
+                task.cancel()
+        entered.clear()
+        for _ in range(4):
+            await asyncio.sleep(0)
+    done = task.done()
+    if not done:
+        n = len(trace)
+        task.cancel()
+        try:
+            await task
+        except asyncio.CancelledError:
+            pass
+        del trace[n:]
+    return trace, done
+
+
+def callsites(ctx, cases_mrp, cases_ap2):
+    import itertools
+    maxlen = 5 if not ctx.thorough else 7
+    from pyatv.core.protocol import HEARTBEAT_RETRIES
+    r = HEARTBEAT_RETRIES
+    for n in range(1, maxlen + 1):
+        for hist in itertools.product("OF", repeat=n):
+            hist = "".join(hist)
+            for ab in [None] + list(range(n + 1)):
+                trace = vloop.run(drive_mrp, hist, ab)
+                ctx.case(("mrp", hist, ab), nontrivial="F" in hist, sample={"site": "MrpProtocol.enable_heartbeat", "device": hist, "abandoned_request_before": ab, "trace": trace} if ab == 1 and n == 3 else None)
+                ctx.count("mrp-callsite")
+                errs = [e for e in oracle(r, hist, [t for t in trace if t != "ActivityAfterFailure"], True) if e != "finish-not-once-on-cancel"]
+                if "ActivityAfterFailure" in trace:
+                    errs.append("activity-after-failure")
+                for e in errs:
+                    ctx.violation("C19:mrp-callsite:" + e, "MrpProtocol keep-alive: " + e,
+                                  {"site": "mrp", "device": hist, "abandoned_request_before": ab, "impl_trace": trace})
+                cases_mrp.append((r, hist, [t for t in trace if t != "ActivityAfterFailure"], "Failure" in trace))
+    for n in range(1, maxlen + 1):
+        for hist in itertools.product("SOFC", repeat=n):
+            hist = "".join(hist)
+            # prune: only histories whose proper prefixes keep the loop running
+            if model_py(r, hist[:-1]):
+                continue
+            trace, done = vloop.run(drive_ap2, hist)
+            ctx.case(("ap2", hist), nontrivial="Send" in trace)
+            ctx.count("ap2-callsite")
+            for e in oracle(r, hist, trace, done):
+                ctx.violation("C19:ap2-callsite:" + e, "AP2Session keep-alive: " + e, {"site": "ap2", "history": hist, "impl_trace": trace})
+            cases_ap2.append((r, hist, trace, done))
+
+
 def coq_case(r, pat, trace, done):
     return "(%s, %s, %s, %s)" % (
         common.cnat(r), common.clist([NAMES[c] for c in pat]),
@@ -176,8 +364,13 @@ def run(ctx):
                     if not done:
                         nxt.append(pat)
             frontier = nxt
+    cs_mrp, cs_ap2 = [], []
+    callsites(ctx, cs_mrp, cs_ap2)
+    # the MRP driver observes sends and the close only (no finish, still-running not distinguished)
+    cases += cs_ap2
+    mrp_cases = cs_mrp
     ctx.exhaustive = True
-    ctx.traces = len(cases)
+    ctx.traces = len(cases) + len(mrp_cases)
     # model vs implementation inside Coq
     items = []
     per = 1500
@@ -189,6 +382,14 @@ def run(ctx):
                "Eval vm_compute in (bad_indices check_case cases).\n"
                % ";\n".join(coq_case(*c) for c in chunk))
         items.append(("cases_%03d" % (i // per), txt))
+    for i in range(0, len(mrp_cases), per):
+        chunk = mrp_cases[i:i + per]
+        txt = ("From Coq Require Import List. Import ListNotations.\n"
+               "From PV Require Import Common.Cases C19.Model.\n"
+               "Definition cases : list (nat * list it * list obs * bool) := [\n%s\n].\n"
+               "Eval vm_compute in (bad_indices check_case_site cases).\n"
+               % ";\n".join(coq_case(*c) for c in chunk))
+        items.append(("mrpcases_%03d" % (i // per), txt))
     res = common.coq_run_many(items, ctx.pid)
     for name, (rc, out) in sorted(res.items()):
         bad = common.parse_eval_nat_list(out) if rc == 0 else None
@@ -196,8 +397,9 @@ def run(ctx):
             ctx.tie_broken("correspondence:" + name, out)
         elif bad:
             base = int(name.split("_")[1]) * per
+            src = mrp_cases if name.startswith("mrp") else cases
             for b in bad[:5]:
-                r, pat, trace, done = cases[base + b]
+                r, pat, trace, done = src[base + b]
                 ctx.tie_broken("correspondence:heartbeater", json.dumps(
                     {"retries": r, "history": pat, "impl_trace": trace, "returned": done}))
     ctx.trusted += [
